@@ -266,7 +266,14 @@ class Interp:
                             msg = a[1]
                     outcomes.add((('panic', fnname.split('::')[-1], msg[:60]), ()))
                     continue
-                if fnname in self.models:
+                if fnname not in self.models and fnname in DEFAULT_MODELS:
+                    res = DEFAULT_MODELS[fnname](argv)
+                    results = res if isinstance(res, list) else [res]
+                    for rv_ in results:
+                        e2 = dict(env)
+                        self.write(e2, t['d'], rv_)
+                        stack.append((t['t'], _envt(e2)))
+                elif fnname in self.models:
                     res = self.models[fnname](argv)
                     results = res if isinstance(res, list) else [res]
                     for rv_ in results:
@@ -300,6 +307,52 @@ class Interp:
                 for s in fn.succ[bi]:
                     stack.append((s, _envt(env)))
         return outcomes
+
+
+CF = 'std::ops::ControlFlow'
+RES = 'std::result::Result'
+OPT = 'std::option::Option'
+
+
+def _try_branch(argv):
+    x = argv[0] if argv else TOP
+    if x != TOP and x[0] == 'e' and x[2] in ('Ok', 'Some'):
+        return E(CF, 'Continue', (x[3][0] if x[3] else TOP,))
+    if x != TOP and x[0] == 'e' and x[2] in ('Err', 'None'):
+        return E(CF, 'Break', (x,))
+    return [E(CF, 'Continue', (TOP,)), E(CF, 'Break', (TOP,))]
+
+
+def _from_residual_result(argv):
+    return E(RES, 'Err', (TOP,))
+
+
+def _opt_query(want):
+    def f(argv):
+        x = argv[0] if argv else TOP
+        if x != TOP and x[0] == 'ref':
+            x = x[1]
+        if x != TOP and x[0] == 'e' and x[2] in ('Some', 'None'):
+            return B((x[2] == 'Some') == want)
+        return TOP
+    return f
+
+
+def _unwrap(argv):
+    x = argv[0] if argv else TOP
+    if x != TOP and x[0] == 'e' and x[2] in ('Some', 'Ok') and x[3]:
+        return x[3][0]
+    return TOP
+
+
+DEFAULT_MODELS = {
+    '<std::result::Result as std::ops::Try>::branch': _try_branch,
+    '<std::option::Option as std::ops::Try>::branch': _try_branch,
+    '<std::result::Result as std::ops::FromResidual>::from_residual': _from_residual_result,
+    'std::option::Option::is_some': _opt_query(True),
+    'std::option::Option::is_none': _opt_query(False),
+    'std::option::Option::unwrap': _unwrap,
+}
 
 
 def _envt(env):
